@@ -35,9 +35,20 @@ func New(baseFS avfs.VFS) *FailFS {
 
 // fail calls the FailFunc function set by SetFailFunc.
 func (vfs *FailFS) fail(fn avfs.FnVFS, fp *FailParam) error {
-	err := vfs.failFunc(vfs, fn, fp)
+	err := vfs.root().failFunc(vfs, fn, fp)
 
 	return err
+}
+
+// root returns the file system whose failure function vfs obeys now :
+// vfs itself or, for a file system returned by Sub, the root of the file system Sub was called on.
+func (vfs *FailFS) root() *FailFS {
+	r := vfs
+	for r.parent != nil {
+		r = r.parent
+	}
+
+	return r
 }
 
 // Name returns the name of the fileSystem.
